@@ -135,6 +135,9 @@ def sysex_data(cx, entry, L, container):
         value = tuple(items)
     elif container == 'gen':
         value = (x for x in items)
+    elif container == 'sysexdata':
+        from mido.messages.messages import SysexData
+        value = SysexData(items)
     else:
         raise AssertionError(container)
     snap = dict(vars(base))
@@ -174,6 +177,12 @@ def structure(cx, type, entry):
     if entry == 'del':
         _, exc = cx.raises(lambda: delattr(base, name), AttributeError, label='del-rejected')
         cx.check(exc is not None, 'del-rejected')
+        # what dict() hands out is a copy: editing it never reaches the message
+        d = base.dict()
+        d[name if name else 'x'] = v
+        d['type'] = 'note_on' if type != 'note_on' else 'clock'
+        d.pop('time', None)
+        cx.check(_unchanged(base, snap), 'del-rejected')
     elif entry == 'set_type':
         other = [t for t in MSG if t != type][cx.choice('other', len(MSG) - 1)]
         _, exc = cx.raises(lambda: setattr(base, 'type', other), AttributeError, label='type-readonly')
@@ -224,7 +233,7 @@ def history(cx, type, k):
 BOUNDS = {
     'quick': 'every (type, value attribute) pair x 5 entry points (constructor, copy, attribute assignment, from_dict, '
              'from_str) with the target value symbolic in [-2^40, 2^40] and the other attributes symbolic in range; '
-             '17-value ill-typed menu (incl. floats/complex numerically equal to valid values and defaults) per attribute (incl. time) and entry point; sysex data as list/tuple/generator '
+             '17-value ill-typed menu (incl. floats/complex numerically equal to valid values and defaults) per attribute (incl. time) and entry point; sysex data as list/tuple/generator/SysexData '
              'of length 0..4 with wide symbolic items through ctor/copy/setattr/from_dict/from_str/+=; del of every '
              'attribute, assignment to type, 20 foreign names (incl. every attribute name of the other message types, value symbolic); assignment histories of length <=3 on one object',
     'thorough': 'as quick with sysex length 0..6 and histories of length <=4',
@@ -248,7 +257,7 @@ def JOBS(tier):
             jobs.append((ill_typed, {'type': t, 'attr': a, 'entry': e}, {}))
     maxl = 4 if tier == 'quick' else 6
     for e in ENTRIES + ['iadd']:
-        for c in ('list', 'tuple', 'gen'):
+        for c in ('list', 'tuple', 'gen', 'sysexdata'):
             if e == 'from_str' and c != 'list':
                 continue
             for L in range(0, maxl + 1):
